@@ -221,6 +221,12 @@ def _flagged(w, ev, slot, name, do, expected, oracle, approx=None,
             w.adopt(slot)
             out.append('fault')
         elif status == 'exc':
+            if not refuse and twin_snap is not None:
+                # the non-in-place variant has just returned a table from
+                # the same state: the two variants are not equivalent
+                w.fail(oracle + '.inplace_raised', '%s(inplace=True) raised '
+                       '%r where %s(inplace=False) returned a table'
+                       % (name, res, name))
             if not refuse:
                 w.fail(oracle + '.raised', '%s(inplace=True) raised %r'
                        % (name, res))
